@@ -94,7 +94,7 @@ pub const ROOTS: &[Root] = &[
 pub const MOVE_TWINS: &[(&str, &str, &str)] = &[
     ("startpos", "e2e4 c7c6 e4e5 d7d5", "e2e3 c7c6 e3e4 d7d6 e4e5 d6d5"),
     ("startpos", "e2e4 c7c6 e4e5 f7f5", "e2e3 c7c6 e3e4 f7f6 e4e5 f6f5"),
-    ("startpos", "g1f3 d7d5 f3g1 d5d4 e2e4", "g1f3 d7d5 e2e3 d5d4 f3g1 g8f6 e3e4 f6g8"),
+    ("startpos", "g1f3 d7d5 f3g1 d5d4 e2e4", "g1f3 d7d6 e2e3 d6d5 f3g1 d5d4 e3e4"),
     ("4k3/3p4/8/4P3/8/8/7P/4K3 w - - 0 1", "h2h4 d7d5", "h2h3 d7d6 h3h4 d6d5"),
     ("4k3/7p/8/8/4p3/8/3P4/4K3 b - - 0 1", "h7h5 d2d4", "h7h6 d2d3 h6h5 d3d4"),
     ("r3k2r/3p4/8/4P3/8/8/7P/R3K2R w KQkq - 0 1", "h2h4 d7d5", "h2h3 d7d6 h3h4 d6d5"),
